@@ -270,3 +270,83 @@ Proof.
       exists SK_FRAGMENT_DEFINITION. split; [eapply rl_select_fragment_kind; eauto|reflexivity].
     + eapply rl_select_ts_def_kind; [exact E|]. eapply rgl_ts_def_kw_kind. exact Hq.
 Qed.
+
+(* ------------------------------------------------------------------ the definition loop *)
+(* on a String, a Name or `{` the loop body is select_definition on the dispatch string *)
+Lemma rl_document_step_select f s b s' t :
+  rl_ok s -> ps_cur s = Some t ->
+  tok_kind t = TkStringValue \/ tok_kind t = TkName \/ tok_kind t = TkLCurly ->
+  g_document_step f (tok_kind t) s = POk (b, s') ->
+  exists def u, g_select_definition def f s = POk (u, s') /\ rl_dispatch def (rl_sigs s).
+Proof.
+  intros [Hinv Ha] Hc Hk E. pose proof (rl_sigs_head _ _ Hinv Hc) as Hhead. unfold g_document_step in E.
+  destruct Hk as [Hk|[Hk|Hk]]; rewrite Hk in E, Hhead; cbn [tkind_eqb] in Hhead.
+  - assert (Hne : tok_kind t <> TkEof) by congruence.
+    destruct (rl_peek_token_n2 _ _ Hinv Hc Hne) as (t2 & Hp2 & Hv2).
+    unfold p_bind at 1 in E. unfold p_peek_data_n in E. unfold p_bind at 1 in E. rewrite Hp2 in E.
+    cbn [p_ret option_map] in E. apply bind_ok in E as (u & s1 & E1 & E). unfold p_ret in E. injection E as _ <-.
+    exists (tok_data t2), u. split; [exact E1|]. rewrite Hhead.
+    destruct (rl_sig (ps_items s)) as [|[k2 d2] r2]; cbn [rl_dispatch].
+    + exact (proj2 Hv2).
+    + destruct Hv2 as (_ & Hd & _ & Hok2). auto.
+  - unfold p_bind at 1 in E. rewrite (peek_data_some t s Hc) in E.
+    apply bind_ok in E as (u & s1 & E1 & E). unfold p_ret in E. injection E as _ <-.
+    exists (tok_data t), u. split; [exact E1|]. rewrite Hhead. reflexivity.
+  - unfold p_bind at 1 in E. rewrite (peek_data_some t s Hc) in E.
+    apply bind_ok in E as (u & s1 & E1 & E). unfold p_ret in E. injection E as _ <-.
+    assert (Hne : tok_kind t <> TkEof) by congruence.
+    destruct (rl_sigs_tok _ _ Hinv Hc Hne) as (_ & Hokt & _). rewrite Hk in Hokt. cbn [rl_tok_ok] in Hokt.
+    apply p_str_eqb_eq in Hokt. exists (tok_data t), u. split; [exact E1|]. rewrite Hhead. cbn. exact Hokt.
+Qed.
+
+Lemma rl_rev_leaves lv : Forall rl_is_leaf lv -> Forall rl_is_leaf (rev lv).
+Proof. intros H. apply Forall_forall. intros x Hx. apply in_rev in Hx. rewrite Forall_forall in H. auto. Qed.
+
+Lemma rl_document_loop_kinds f : forall lf (u : unit) s (u0 : unit) s',
+  p_peek_while_acc lf (fun (_ : unit) k => c <- g_doc_step f k ;; p_ret (tt, c)) u s = POk (u0, s') ->
+  rl_ok s -> tr_ok (ps_rec s) -> ps_errors s' = ps_errors s ->
+  forall n ds, (length (rl_sigs s) <= n)%nat -> rg_defs_f n (rgl_definition LP) (rl_sigs s) = RgOk ds ->
+  pb_parents (ps_builder s') = pb_parents (ps_builder s) /\
+  exists new, pb_children (ps_builder s') = new ++ pb_children (ps_builder s) /\
+              flat_map rl_elem_kinds (rev new) = map fst ds.
+Proof.
+  induction lf as [|lf IH]; intros u s u0 s' E Hok Ht He n ds Hn Hq; [discriminate|].
+  pose proof Hok as [Hinv Ha]. destruct (rl_inv_cur _ Hinv) as (t & Hc & Hi & _).
+  destruct (rl_peek_while_acc_unroll _ _ _ _ _ _ _ Hc E) as ([] & cont & s1 & E1 & E2).
+  apply bind_ok in E1 as (b & s2 & E1 & E3). unfold p_ret in E3. injection E3 as Hb Hs2. subst b s2.
+  unfold g_doc_step in E1. apply bind_ok in E1 as (? & s0 & Ea & E1). apply rl_assert_run in Ea. subst s0.
+  destruct (rl_document_step f s cont s1 t Hok Ht Hc E1) as [Heof Hdef].
+  destruct (tkind_eqb (tok_kind t) TkEof) eqn:Hk.
+  - (* the end: nothing is added, and the reference has no definition left *)
+    apply tkind_eqb_eq in Hk. destruct (Heof Hk) as [-> ->]. destruct E2 as [_ ->].
+    rewrite (rl_sigs_eof _ _ Hinv Hc Hk) in Hq. split; [reflexivity|]. exists [].
+    destruct n; cbn [rg_defs_f] in Hq; injection Hq as <-; auto.
+  - assert (Hne : tok_kind t <> TkEof) by (intros H; apply tkind_eqb_eq in H; congruence).
+    destruct (Hdef Hne) as (-> & Hs1 & _).
+    destruct (rl_gen_run _ _ _ _ (rl_gen_document_step f (tok_kind t)) E1 Ht) as (Ht1 & _ & _ & Hx1).
+    destruct (rl_gen_run _ _ _ _ (rl_gen_doc_loop f lf tt) E2 Ht1) as (_ & _ & _ & Hx2).
+    destruct (rl_ext_split _ _ _ Hx1 Hx2 He) as [He1 He2].
+    destruct (Hs1 He1) as (Hok1 & _ & Hacc).
+    destruct (rl_sigs_tok _ _ Hinv Hc Hne) as (Hsig & _ & _).
+    (* the first definition of the reference's run *)
+    rewrite Hsig in Hq. destruct n as [|n]; [discriminate|]. cbn [rg_defs_f] in Hq. unfold rg_bind at 1 in Hq.
+    destruct (rgl_definition LP ((tok_kind t, tok_data t) :: rl_sig (ps_items s))) as [[d r1]| |] eqn:Eq1; try discriminate.
+    cbn [snd fst] in Hq.
+    destruct (rg_defs_f n (rgl_definition LP) r1) as [ds'| |] eqn:Eq2; try discriminate. injection Hq as <-.
+    rewrite <- Hsig in Eq1.
+    assert (Hr1 : rl_sigs s1 = r1).
+    { unfold rl_acc in Hacc. rewrite Eq1 in Hacc. cbn in Hacc. injection Hacc as ->. reflexivity. }
+    pose proof (rgl_definition_progress _ _ Eq1) as Hlt. cbn [snd] in Hlt.
+    assert (Hn1 : (length (rl_sigs s1) <= n)%nat) by (rewrite Hr1; lia).
+    rewrite <- Hr1 in Eq2.
+    destruct (IH _ _ _ _ E2 Hok1 Ht1 He2 n ds' Hn1 Eq2) as (Hp2 & new' & Hc2 & Hk2).
+    (* the node this definition added *)
+    assert (Hkind : tok_kind t = TkStringValue \/ tok_kind t = TkName \/ tok_kind t = TkLCurly).
+    { rewrite Hsig in Eq1. unfold rgl_definition in Eq1. destruct (tok_kind t); try discriminate Eq1; auto. }
+    destruct (rl_document_step_select f s true s1 t Hok Hc Hkind E1) as (def & u1 & Esel & Hdisp).
+    destruct (rl_select_kind f def s u1 s1 Hok Esel Hdisp d r1 Eq1) as (K & (Hp1 & cs & lv & Hc1 & Hlv) & HK).
+    split; [congruence|]. exists (new' ++ PNode K cs :: lv). split.
+    + rewrite Hc2, Hc1, <- app_assoc. reflexivity.
+    + rewrite rev_app_distr. cbn [rev]. rewrite !flat_map_app. cbn [flat_map rl_elem_kinds]. rewrite HK.
+      rewrite (rl_leaves_no_kinds _ (rl_rev_leaves _ Hlv)), Hk2. reflexivity.
+Qed.
